@@ -196,6 +196,17 @@ pub fn build(cfg: Cfg, rows: &[RowIng], fresh: &[RowIng]) -> Case {
         ((nmin as f64 / n as f64) * 1024.0).floor() / 1024.0
     };
 
+    // SVR: the number of SMO iterations explodes with C * (kernel scale) (10^6..10^7 iterations, linfa's
+    // cap is 10^7), so the exponent of C is compressed monotonically into a range that depends on the kernel
+    let svr_c = |c_exp: i32| -> f64 {
+        let hi = match cfg.kernel {
+            Kern::Poly(_, d) if d >= 3.0 => 0,
+            Kern::Poly(_, d) if d >= 2.0 => 50,
+            _ => 150,
+        };
+        let e = -200 + ((c_exp + 200).clamp(0, 500) as i64 * (hi + 200) as i64 / 500) as i32;
+        c_of(e)
+    };
     let task = match cfg.task {
         TaskIng::CSvc { c_exp, ratio, platt } => {
             let cpos = c_of(c_exp);
@@ -204,13 +215,13 @@ pub fn build(cfg: Cfg, rows: &[RowIng], fresh: &[RowIng]) -> Case {
         }
         TaskIng::NuSvc { nu, platt } => Task::NuSvc { nu: r32(pick_nu(nu), single), labels, platt },
         TaskIng::EpsSvr { c_exp, le } => Task::EpsSvr {
-            c: r32(c_of(c_exp), single),
+            c: r32(svr_c(c_exp), single),
             loss_eps: r32(LOSS_EPS[(le as usize).min(3)], single),
             targets,
         },
         TaskIng::NuSvr { nu, c_exp } => Task::NuSvr {
             nu: r32(NUS[(nu as usize).min(3)], single),
-            c: r32(c_of(c_exp), single),
+            c: r32(svr_c(c_exp), single),
             targets,
         },
         TaskIng::OneClass { nu } => Task::OneClass { nu: r32(ONE_CLASS_NUS[(nu as usize).min(4)], single) },
